@@ -113,8 +113,11 @@ func specOfNamed(name string) *shapeSpec {
 
 var c05Ints = []int{0, 1, -1, math.MaxInt64, math.MinInt64, 42}
 var c05Floats = []float64{0.0, math.Copysign(0, -1), 2.5, 2.0, math.MaxFloat64, 5e-324, -1e21}
-var c05Strings = []string{"", "a", "q\"b\\c", "l1\nl2\tt", "\x00é€", " # ; "}
+var c05Strings = []string{"", "a", "q\"b\\c", "l1\nl2\tt", "\x00é€", " # ; ", "C:\\tmp\\", "\\", "\"", "'`\r"}
 var c05Bools = []bool{false, true}
+
+// largest per-kind value alphabet (value indices are taken modulo the kind's own alphabet size)
+const c05MaxAlpha = 10
 
 func litInt(x int) string {
 	switch {
@@ -499,7 +502,7 @@ func init() {
 		ID:    "C05",
 		Level: "model_checking",
 		Rule: "struct shapes: <=3 fields of kinds int/float64/string/bool/nested struct (4 inner shapes, nesting <=2, named and anonymous struct types) over 9 name sets, 3 tagging modes (none, tagged, a tag equal to another field's name: precedence), Name absent or at every index, plus hand-declared named types; " +
-			"per shape: every value vector over per-kind alphabets (6 ints incl. extremes, 7 floats incl. -0.0/MaxFloat64/5e-324, 6 strings needing escapes, 2 bools) with the canonical key spelling, every key spelling (case patterns, an underscore at every position) with one value vector, every admissible block-type spelling for named types, struct binding and slice binding of 1..3 blocks into a pre-filled slice. " +
+			"per shape: every value vector over per-kind alphabets (6 ints incl. extremes, 7 floats incl. -0.0/MaxFloat64/5e-324, 10 strings needing escapes (quotes, trailing backslash, control characters), 2 bools) with the canonical key spelling, every key spelling (case patterns, an underscore at every position) with one value vector, every admissible block-type spelling for named types, struct binding and slice binding of 1..3 blocks into a pre-filled slice. " +
 			"Oracle: the value is rendered as BCL text, Unmarshal must return nil and the target must equal the written value (floats by bit pattern).",
 		Subs:           []*fw.Sub{subC05},
 		BudgetQuick:    100,
@@ -528,7 +531,7 @@ func init() {
 						i := nv - 1
 						for i >= 0 {
 							vals[i]++
-							if vals[i] < 7 {
+							if vals[i] < c05MaxAlpha {
 								break
 							}
 							vals[i] = 0
@@ -541,7 +544,7 @@ func init() {
 				} else {
 					for base := 0; base < 3; base++ {
 						for leaf := 0; leaf < nv; leaf++ {
-							for x := 0; x < 7; x++ {
+							for x := 0; x < c05MaxAlpha; x++ {
 								vals := make([]int, nv)
 								for i := range vals {
 									vals[i] = base
@@ -551,10 +554,10 @@ func init() {
 							}
 						}
 					}
-					for x := 0; x < 7; x++ {
+					for x := 0; x < c05MaxAlpha; x++ {
 						vals := make([]int, nv)
 						for i := range vals {
-							vals[i] = (x + i) % 7
+							vals[i] = (x + i) % c05MaxAlpha
 						}
 						do(vals, nil, bts[0], "nm", -1)
 					}
